@@ -120,7 +120,7 @@ type snWorld struct {
 }
 
 func newSNWorld(ready bool) (*snWorld, error) {
-	root, err := os.MkdirTemp("/dev/shm", "verif-c32-")
+	root, err := os.MkdirTemp("/dev/shm", sw.ScratchPrefix())
 	if err != nil {
 		return nil, err
 	}
@@ -454,6 +454,10 @@ func fillOutcome(o *outcome, res sw.Result) {
 
 func main() {
 	r := ev.Start("C32", ev.Exploration)
+	fatal := func(format string, a ...any) {
+		sw.Cleanup()
+		r.Fatal(format, a...)
+	}
 	sw.RegisterServerStream[control.ListObjectsResponse]()
 
 	var mu sync.Mutex
@@ -471,7 +475,7 @@ func main() {
 			o, ok, err = runSN(c)
 		}
 		if err != nil {
-			r.Fatal("%s: %v", c, err)
+			fatal("%s: %v", c, err)
 		}
 		if !ok {
 			mu.Lock()
@@ -524,6 +528,7 @@ func main() {
 		r.LoadReplay(&c)
 		fmt.Println("replaying", c)
 		check(c)
+		sw.Cleanup()
 		r.Finish()
 	}
 
@@ -531,7 +536,7 @@ func main() {
 	snMethods, irMethods := sw.Methods(snIface), sw.Methods(irIface)
 	for _, m := range snMethods {
 		if k := sw.SignatureOf(snIface, m).Kind; k != sw.Unary && k != sw.ServerStream {
-			r.Fatal("storage control method %s has an unsupported signature", m)
+			fatal("storage control method %s has an unsupported signature", m)
 		}
 		for _, v := range variants {
 			for _, ready := range []bool{true, false} {
@@ -541,7 +546,7 @@ func main() {
 	}
 	for _, m := range irMethods {
 		if k := sw.SignatureOf(irIface, m).Kind; k != sw.Unary && k != sw.ServerStream {
-			r.Fatal("IR control method %s has an unsupported signature", m)
+			fatal("IR control method %s has an unsupported signature", m)
 		}
 		for _, v := range variants {
 			cases = append(cases, tcase{Server: "ir", Method: m, Variant: v, Ready: true})
@@ -573,12 +578,12 @@ func main() {
 	if r.Violations() == 0 {
 		for _, m := range snMethods {
 			if _, ok := passed[tcase{Server: "storage", Method: m, Variant: "correct", Ready: true}.String()]; !ok {
-				r.Fatal("storage.%s: the correctly signed request did not pass", m)
+				fatal("storage.%s: the correctly signed request did not pass", m)
 			}
 		}
 		for _, m := range irMethods {
 			if _, ok := passed[tcase{Server: "ir", Method: m, Variant: "correct", Ready: true}.String()]; !ok {
-				r.Fatal("ir.%s: the correctly signed request did not pass", m)
+				fatal("ir.%s: the correctly signed request did not pass", m)
 			}
 		}
 	}
@@ -601,5 +606,6 @@ func main() {
 		"'allowed key + body changed' cannot be expressed for requests whose body has no fields (the signed data is empty either way); those requests are covered by 'signature corrupted' and 'claimed key' variants",
 		"static dominance of isValidRequest over effects in the program text is not decided; what is decided is the dynamic product above over the actual method sets")
 	r.Exhaustive(true)
+	sw.Cleanup()
 	r.Finish()
 }
